@@ -409,7 +409,14 @@ func (ch *Channel) ListenAndServe(hostPort string) error {
 	}
 
 	mutable.RUnlock()
-	return ch.Serve(l)
+	if err := ch.Serve(l); err != nil {
+		// Serve refused the listener (the channel is closing or closed, or another
+		// Serve won the race): nobody would ever accept on it or close it, and peers
+		// dialing the address would hang instead of being refused.
+		l.Close()
+		return err
+	}
+	return nil
 }
 
 // Registrar is the base interface for registering handlers on either the base
